@@ -434,13 +434,27 @@ open IpcHub.HevcSyntax in
 def hevcspsenc (kv : List (String × String)) : String :=
   let s := HevcIn.spsOf kv
   let bytes := encSpsNal s
-  s!"bytes={bytesToHex bytes} spec={croppedWidth s},{croppedHeight s},{boolStr (fixedFrameRate s)},{fpsStr (frameRate s)} " ++ hevcspsdec bytes
+  s!"bytes={bytesToHex bytes} spec={croppedWidth s},{croppedHeight s},{boolStr (fixedFrameRateStd s)},{fpsStr (frameRateStd s)} rate={rateClass s} " ++ hevcspsdec bytes
 
 open IpcHub.HevcSyntax in
 def hevcvpsenc (kv : List (String × String)) : String :=
   let v := HevcIn.vpsOf kv
   let bytes := encVpsNal v
   s!"bytes={bytesToHex bytes} spec=32,{v.nuh_layer_id},{v.nuh_temporal_id_plus1},{v.vps_video_parameter_set_id},{boolStr v.vps_base_layer_internal_flag},{boolStr v.vps_base_layer_available_flag},{v.vps_max_layers_minus1},{v.ptl.sub_layers.length},{boolStr v.vps_temporal_id_nesting_flag}, " ++ hevcvpsdec bytes
+
+/-- `usable=<slice handed on>,<metaReady>,<own|inband|other>,<w>,<h>,<fixed>,<fps>` after the SDP's sets and one in-band repetition -/
+def usableOut (needVps : Bool) (dec : List UInt8 → Option IpcHub.MetaReady.Dims) (sps0 : List UInt8) (kv : List (String × String)) : String :=
+  let hexOr (x : String) : List UInt8 := (hexToBytes x).getD []
+  let pre : List UInt8 := match getN kv "sc" with
+    | 3 => [0, 0, 1]
+    | 4 => [0, 0, 0, 1]
+    | _ => []
+  match (getS kv "sd").splitOn ".", (getS kv "ib").splitOn "." with
+  | [v0, p0], [v, s, p] =>
+    let r := IpcHub.MetaReady.afterSdpAndInBand needVps dec (pre ++ hexOr v0) (pre ++ sps0) (pre ++ hexOr p0) (hexOr v) (hexOr s) (hexOr p)
+    let which := if r.1.vm.sps == IpcHub.Epb.removeNaluSeparator (pre ++ sps0) then "own" else if r.1.vm.sps == hexOr s then "inband" else "other"
+    s!" usable={boolStr r.2},{boolStr r.1.metaReady},{which},{r.1.vm.width},{r.1.vm.height},{boolStr r.1.vm.fixed},{fpsStr r.1.vm.fps}"
+  | _, _ => " usable=bad-op"
 
 def handle : List String → String
   | "bits" :: hex :: ops =>
@@ -470,6 +484,18 @@ def handle : List String → String
   | ["hevcvpsdec", hex] =>
     match hexToBytes hex with
     | some bs => hevcvpsdec bs
+    | none => "bad-op"
+  -- a parameter set inside a generated SDP (the SDP text is built by the harness from the form seed): the model's
+  -- decode of the set, as for the direct decoder ops; for video also the model of "SDP sets stored, then one in-band
+  -- repetition of valid sets and a slice" (Model/MetaReady.lean): `sd=<vps0|->.<pps0>` the other sets of the SDP,
+  -- `sc=<n>` the start-code prefix of the SDP's sets, `ib=<vps|->.<sps>.<pps>` the in-band sets
+  | "sdp" :: kind :: hex :: kv =>
+    match hexToBytes hex with
+    | some bs =>
+      if kind == "aac" then ascdec bs
+      else if kind == "h264" then h264dec bs ++ usableOut false (IpcHub.MetaReady.dec264 IpcHub.H264.genCfg) bs (kvOf kv)
+      else if kind == "h265" then hevcspsdec bs ++ usableOut true (IpcHub.MetaReady.dec265 IpcHub.Hevc.genCfg) bs (kvOf kv)
+      else "bad-op"
     | none => "bad-op"
   | _ => "bad-op"
 
